@@ -38,6 +38,8 @@ type Party interface {
 	unlock()
 	setStoredEarly()
 	storedEarly() bool
+	setAborted(*Error)
+	aborted() *Error
 }
 
 type BaseParty struct {
@@ -46,6 +48,9 @@ type BaseParty struct {
 	FirstRound Round
 	// whether a message was stored while no round was set, i.e. before Start()
 	early bool
+	// the error with which a round failed: the session is over, later updates must not drive the
+	// half-initialised rounds any further
+	failed *Error
 }
 
 func (p *BaseParty) Running() bool {
@@ -127,6 +132,16 @@ func (p *BaseParty) storedEarly() bool {
 	return p.early
 }
 
+func (p *BaseParty) setAborted(err *Error) {
+	if p.failed == nil {
+		p.failed = err
+	}
+}
+
+func (p *BaseParty) aborted() *Error {
+	return p.failed
+}
+
 // ----- //
 
 func BaseStart(p Party, task string, prepare ...func(Round) *Error) *Error {
@@ -155,12 +170,14 @@ func BaseStart(p Party, task string, prepare ...func(Round) *Error) *Error {
 		common.Logger.Debugf("party %s: %s round %d finished", p.PartyID(), task, 1)
 	}()
 	if err := p.round().Start(); err != nil {
+		p.setAborted(err)
 		return err
 	}
 	// messages that were delivered (and stored) before Start() must be taken into account now:
 	// if no further message arrives, nothing else would ever trigger an update
 	for p.storedEarly() && p.round() != nil {
 		if _, err := p.round().Update(); err != nil {
+			p.setAborted(err)
 			return err
 		}
 		if !p.round().CanProceed() {
@@ -168,6 +185,7 @@ func BaseStart(p Party, task string, prepare ...func(Round) *Error) *Error {
 		}
 		if p.advance(); p.round() != nil {
 			if err := p.round().Start(); err != nil {
+				p.setAborted(err)
 				return err
 			}
 			common.Logger.Infof("party %s: %s round %d started", p.PartyID(), task, p.round().RoundNumber())
@@ -192,6 +210,10 @@ func BaseUpdate(p Party, msg ParsedMessage, task string) (ok bool, err *Error) {
 		return ok, err
 	}
 	p.lock() // data is written to P state below; the error wrapping in ValidateMessage reads the round
+	// a round of this session has already failed: the party's state is not fit to go on
+	if err := p.aborted(); err != nil {
+		return r(false, err)
+	}
 	// fast-fail on an invalid message
 	if _, err := p.ValidateMessage(msg); err != nil {
 		return r(false, err)
@@ -206,11 +228,13 @@ func BaseUpdate(p Party, msg ParsedMessage, task string) (ok bool, err *Error) {
 	if p.round() != nil {
 		common.Logger.Debugf("party %s: %s round %d update", p.round().Params().PartyID(), task, p.round().RoundNumber())
 		if _, err := p.round().Update(); err != nil {
+			p.setAborted(err)
 			return r(false, err)
 		}
 		if p.round().CanProceed() {
 			if p.advance(); p.round() != nil {
 				if err := p.round().Start(); err != nil {
+					p.setAborted(err)
 					return r(false, err)
 				}
 				rndNum := p.round().RoundNumber()
